@@ -6,9 +6,13 @@ import (
 	"strings"
 )
 
-func resMatch(scrut, binder, okBody, errBody string) string {
+func (t *tr) resMatch(scrut, binder, okBody, errBody string) string {
+	pb := "Panic"
+	if t.recvMode {
+		pb = "None" // the callee panics: no statement about the receiver
+	}
 	return "match " + scrut + " with\n| Ok " + binder + " =>\n" + indent(okBody) +
-		"\n| Err =>\n" + indent(errBody) + "\n| Panic => Panic\nend"
+		"\n| Err =>\n" + indent(errBody) + "\n| Panic => " + pb + "\nend"
 }
 
 // errMatch: `x, err := f(..)` (or `err := f(..)`, `x.f, err = f(..)`) where f
@@ -58,6 +62,9 @@ func (t *tr) errMatch(s *ast.AssignStmt, pd *pending, rest []ast.Stmt, k func() 
 	for _, l := range s.Lhs[:n-1] {
 		if id, ok := l.(*ast.Ident); ok && id.Name != "_" {
 			t.setVar(id.Name, &val{t: tErr, isNil: true, poison: true}, define)
+		} else if _, ok := l.(*ast.SelectorExpr); ok {
+			// x.f, err = g(..): on failure the callee returns nil for the value
+			t.store(l, &val{t: tErr, isNil: true, errK: 1}, false)
 		}
 	}
 	t.storeVar(errId.Name, &val{t: tErr, errK: 2}, define)
@@ -69,7 +76,7 @@ func (t *tr) errMatch(s *ast.AssignStmt, pd *pending, rest []ast.Stmt, k func() 
 	if errBody == "Err" && ((!pd.unit && okBody == "Ok "+binder) || (pd.unit && okBody == "Ok tt")) {
 		return pre + pd.expr
 	}
-	return pre + resMatch(pd.expr, binder, okBody, errBody)
+	return pre + t.resMatch(pd.expr, binder, okBody, errBody)
 }
 
 // sqrtMatch: r := z.ModSqrt(x, Q) followed by `if r == nil { .. return }`.
@@ -183,6 +190,9 @@ func hasDecl(l []ast.Stmt) bool {
 
 // ret translates a return statement.
 func (t *tr) ret(s *ast.ReturnStmt) string {
+	if t.recvMode {
+		return t.retRecv(s)
+	}
 	want := len(t.results)
 	if t.hasErr {
 		want++
@@ -241,7 +251,7 @@ func (t *tr) retPending(pd *pending) string {
 	if (!pd.unit && ok == "Ok "+binder) || (pd.unit && ok == "Ok tt") {
 		return pre + pd.expr
 	}
-	return pre + resMatch(pd.expr, binder, ok, "Err")
+	return pre + t.resMatch(pd.expr, binder, ok, "Err")
 }
 
 // success builds the Coq result for the Go results vals (error nil).
